@@ -46,7 +46,8 @@ def cases(tier, seed):
                 add('lu', D=D, n=n, pivot=True, rep=rep)
                 add('eigh', D=D, n=n, split=-1, rep=rep)          # distinct eigenvalues
                 if D <= 2:
-                    add('eig', D=D, n=n, rep=rep)
+                    for vk in ('real', 'complex', 'hermitian'):
+                        add('eig', D=D, n=n, vals=vk, rep=rep)
             for n in (2, 3, 4, 5):
                 for split in (1, 2, 3, 0):                        # order at which the repeated block splits; 0 = never
                     if split < D:
@@ -86,7 +87,7 @@ def _qr(ctx, p, rng, full=False):
     cond = max(lin.cond2(a[0, pp]) for pp in range(P))
     mech = '%s:%s' % (name, cls)
     try:
-        Qm, R = (algopy.qr_full if full else algopy.qr)(UTPM(a.copy()))
+        Qm, R = (algopy.qr_full if full else algopy.qr)(UTPM(gen.relayout(a, gen.LAYOUTS[int(rng.integers(5))])))
     except Exception as e:
         ctx.violation(mech + ':raises:' + type(e).__name__, {'M': M, 'N': N, 'D': D, 'P': P, 'error': repr(e)[:200]}); return
     K = M if full else min(M, N)
@@ -117,7 +118,7 @@ def _cholesky(ctx, p, rng):
     a = 0.5 * (a + lin.T(a))
     cond = max(lin.cond2(a[0, pp]) for pp in range(P))
     try:
-        L = algopy.cholesky(UTPM(a.copy()))
+        L = algopy.cholesky(UTPM(gen.relayout(a, gen.LAYOUTS[int(rng.integers(5))])))
     except Exception as e:
         ctx.violation('cholesky:raises:' + type(e).__name__, {'n': n, 'D': D, 'P': P, 'error': repr(e)[:200]}); return
     if L.data.shape != a.shape:
@@ -148,7 +149,7 @@ def _lu(ctx, p, rng):
     cond = max(lin.cond2(a[0, pp]) for pp in range(P))
     mech = 'lu:%s' % ('pivot' if pivot else 'nopivot')
     try:
-        W, L, Uu = algopy.lu(UTPM(a.copy()))
+        W, L, Uu = algopy.lu(UTPM(gen.relayout(a, gen.LAYOUTS[int(rng.integers(5))])))
     except Exception as e:
         ctx.violation(mech + ':raises:' + type(e).__name__, {'n': n, 'D': D, 'P': P, 'error': repr(e)[:200]}); return
     w, l, u = W.data, L.data, Uu.data
@@ -227,7 +228,7 @@ def _eigh(ctx, p, rng):
         cls = 'repeated'
     mech = 'eigh:%s' % cls + ('' if split < 0 else ':split%d' % split)
     try:
-        l, Qm = algopy.eigh(UTPM(a.copy()))
+        l, Qm = algopy.eigh(UTPM(gen.relayout(a, gen.LAYOUTS[int(rng.integers(5))])))
     except Exception as e:
         ctx.violation(mech + ':raises:' + type(e).__name__, {'n': n, 'D': D, 'P': P, 'split': split, 'error': repr(e)[:300]}); return
     if l.data.shape != (D, P, n) or Qm.data.shape != (D, P, n, n):
@@ -258,18 +259,30 @@ def _eigh(ctx, p, rng):
 
 def _eig(ctx, p, rng):
     D, P, n = p['D'], p['P'], p['n']
+    kind = p.get('vals', 'real')      # real | complex (general) | hermitian (real spectrum, complex eigenvectors)
 
     def base():
         V = gen.well_conditioned(rng, n)
         lam = np.cumsum(rng.uniform(0.4, 1.2, size=n)) - 1.0
-        return V @ np.diag(lam) @ np.linalg.inv(V)
-    a = _series(rng, D, P, n, n, base, scale=0.4)
+        if kind == 'real':
+            return V @ np.diag(lam) @ np.linalg.inv(V)
+        if kind == 'hermitian':
+            Qc, _ = np.linalg.qr(rng.normal(size=(n, n)) + 1j * rng.normal(size=(n, n)))
+            return Qc @ np.diag(lam) @ Qc.conj().T
+        Vc = V + 0.5j * gen.well_conditioned(rng, n)
+        return Vc @ np.diag(lam + 0.7j * rng.normal(size=n)) @ np.linalg.inv(Vc)
+    a = 0.4 * rng.normal(size=(D, P, n, n)) + (0.4j * rng.normal(size=(D, P, n, n)) if kind != 'real' else 0)
+    for pp in range(P):
+        a[0, pp] = base()
+    if kind == 'hermitian':
+        a = 0.5 * (a + np.conj(lin.T(a)))
+    mech = 'eig:' + kind
     try:
-        l, Qm = algopy.eig(UTPM(a.copy()))
+        l, Qm = algopy.eig(UTPM(gen.relayout(a, gen.LAYOUTS[int(rng.integers(5))])))
     except Exception as e:
-        ctx.violation('eig:raises:' + type(e).__name__, {'n': n, 'D': D, 'P': P, 'error': repr(e)[:200]}); return
+        ctx.violation(mech + ':raises:' + type(e).__name__, {'n': n, 'D': D, 'P': P, 'error': repr(e)[:200]}); return
     if l.data.shape != (D, P, n) or Qm.data.shape != (D, P, n, n):
-        ctx.violation('eig:shape', {'l': l.data.shape, 'Q': Qm.data.shape}); return
+        ctx.violation(mech + ':shape', {'l': l.data.shape, 'Q': Qm.data.shape}); return
     q = Qm.data
     Lm = np.zeros((D, P, n, n), dtype=l.data.dtype)
     for d in range(D):
@@ -278,10 +291,11 @@ def _eig(ctx, p, rng):
     AQ, M1 = lin.cdot(a, q); QL, M2 = lin.cdot(q, Lm)
     e1 = lin.res_norm(AQ - QL, M1 + M2)
     z = max(float(np.max(np.abs(np.sort_complex(l.data[0, pp]) - np.sort_complex(np.linalg.eigvals(a[0, pp]))))) for pp in range(P))
-    cq = max(lin.cond2(np.real(q[0, pp])) for pp in range(P))
+    sv = [np.linalg.svd(q[0, pp], compute_uv=False) for pp in range(P)]
+    cq = max(float(s_[0] / s_[-1]) if s_[-1] > 0 else np.inf for s_ in sv)
     if not (e1 <= 1e-7 * cq and z <= 1e-9 * cq):
-        ctx.violation('eig:' + ('AQ=QL' if e1 > 1e-7 * cq else 'zeroth'), {'n': n, 'D': D, 'P': P, 'AQ-QL': e1, 'zeroth': z}); return
-    ctx.ok('eig', ('eig', n, D, P), noise=e1 / cq)
+        ctx.violation(mech + ':' + ('AQ=QL' if not e1 <= 1e-7 * cq else 'zeroth'), {'n': n, 'D': D, 'P': P, 'AQ-QL': e1, 'zeroth': z, 'cond_Q0': cq}); return
+    ctx.ok('eig', ('eig', n, D, P, kind), noise=e1 / cq)
 
 
 def _svd(ctx, p, rng):
@@ -297,7 +311,7 @@ def _svd(ctx, p, rng):
     a = _series(rng, D, P, M, N, base, scale=0.4)
     mech = 'svd:' + cls
     try:
-        U, s, V = algopy.svd(UTPM(a.copy()))
+        U, s, V = algopy.svd(UTPM(gen.relayout(a, gen.LAYOUTS[int(rng.integers(5))])))
     except Exception as e:
         ctx.violation(mech + ':raises:' + type(e).__name__, {'M': M, 'N': N, 'D': D, 'P': P, 'error': repr(e)[:300]}); return
     if U.data.shape != (D, P, M, M) or s.data.shape != (D, P, K) or V.data.shape != (D, P, N, N):
